@@ -779,6 +779,11 @@ def run(ctx):
         cases = cases[::6]
     chunks = [cases[i::16] for i in range(16)]
     core.run_shards(ctx, "harness.c11", "shard_nextid", [c for c in chunks if c])
+    # application level (coordinator's end-to-end stream, implementation side only): complete stacks with the
+    # IOCB interface, an echo server, requests issued from inside completion callbacks and to several peers at
+    # once: every IOCB is completed exactly once and with the answer to ITS OWN request
+    from . import c04_impl
+    c04_impl.run_app_scripts(ctx, label="c11")
 
 
 def shard_nextid(ctx, cases):
@@ -798,6 +803,9 @@ def search(ctx):
 def replay(ctx, payload):
     rec = payload.get("failure") or (payload.get("correspondence_disagreements") or [{}])[0]
     case = rec.get("case")
+    if isinstance(case, dict) and "script_scenario" in case:
+        from . import c04_impl
+        return c04_impl.replay_impl(ctx, case)
     if isinstance(case, dict) and "events" in case:
         L = replay_events(ctx, "replay", case["reset"], case["events"])
         T.compare(ctx, "replay", [L])
